@@ -39,6 +39,9 @@ type Subscription struct {
 	sub *nats.Subscription
 }
 
+// maxSIDLen is the maximum number of digits of a subscription ID (int64).
+const maxSIDLen = 19
+
 type responseCont struct {
 	isReq bool
 	f     mq.Response
@@ -185,8 +188,8 @@ func (c *Client) onError(conn *nats.Conn, sub *nats.Subscription, err error) {
 func (c *Client) SendRequest(subj string, payload []byte, cb mq.Response) {
 	inbox := nats.NewInbox()
 
-	// Validate max control line size
-	if len(subj)+len(inbox) > nats.MAX_CONTROL_LINE_SIZE {
+	// Validate max control line size of the publish: "<subject> <inbox> <payload size>"
+	if len(subj)+len(inbox)+len(strconv.Itoa(len(payload)))+2 > nats.MAX_CONTROL_LINE_SIZE {
 		go cb("", nil, mq.ErrSubjectTooLong)
 		return
 	}
@@ -215,8 +218,8 @@ func (c *Client) SendRequest(subj string, payload []byte, cb mq.Response) {
 // Subscribe to all events on a resource namespace.
 // The namespace has the format "event."+resource
 func (c *Client) Subscribe(namespace string, cb mq.Response) (mq.Unsubscriber, error) {
-	// Validate max control line size
-	if len(namespace) > nats.MAX_CONTROL_LINE_SIZE-2 {
+	// Validate max control line size of the subscribe: "<namespace>.* <sid>"
+	if len(namespace) > nats.MAX_CONTROL_LINE_SIZE-2-1-maxSIDLen {
 		return nil, mq.ErrSubjectTooLong
 	}
 
